@@ -35,6 +35,7 @@ Definition qcow2_gate (h : qcow2_hdr) : res unit :=
   do _ <- gate ((q_compression h =? Gen.Consts.qcow2_QCOW2_COMPRESSION_TYPE_ZSTD) && negb (q_has_zstd h));
   do _ <- gate (qcow2_subcluster_size h <? 2 ^ Gen.Consts.qcow2_MIN_CLUSTER_BITS);
   do _ <- gate (negb (q_crypt h =? 0));
+  do _ <- gate (negb (Z.land (q_incompat h) (Z.lnot Gen.Consts.qcow2_QCOW2_INCOMPAT_MASK) =? 0));
   do _ <- gate (negb (Z.land (q_incompat h) Gen.Consts.qcow2_QCOW2_INCOMPAT_DATA_FILE =? 0) && negb (q_data_file_given h));
   do _ <- gate (negb (q_backing_offset h =? 0) && negb (q_backing_given h));
   Ok tt.
@@ -86,6 +87,14 @@ Definition hdd_gate (descriptor_exists : bool) (image_types : list Z) : res unit
 Definition vmdk_sparse_gate (magic : list Z) : res unit :=
   gate (negb (zlist_eqb magic Gen.Consts.vmdk_VMDK_MAGIC || zlist_eqb magic Gen.Consts.vmdk_SESPARSE_MAGIC ||
               zlist_eqb magic Gen.Consts.vmdk_COWD_MAGIC)).
+
+(* hosted/COWD extents whose header says "grain directory at end" are re-read from the footer copy,
+   through the same magic-checking constructor *)
+Definition vmdk_footer_gate (hdr_magic : list Z) (uses_footer : bool) (footer_magic : list Z) : res unit :=
+  do _ <- vmdk_sparse_gate hdr_magic;
+  if uses_footer then
+    gate (negb (zlist_eqb footer_magic Gen.Consts.vmdk_VMDK_MAGIC || zlist_eqb footer_magic Gen.Consts.vmdk_COWD_MAGIC))
+  else Ok tt.
 
 (* ---------- Hyper-V VMCX/VMRS ---------- *)
 Record hyperv_hdr := {
